@@ -26,7 +26,7 @@ RULE = (
     "Distinct = (estimator, office, aggregate list, known/new county, known/new district, pev class)."
 )
 ASSUMPTIONS = [
-    "the added unit's state is a config state that has baseline units in the run (a unit from a state outside the config adds a contest and is outside the property's domain)",
+    "bootstrap: the added unit's state is a config state that has baseline units in the run (a unit from another state adds a contest effect and with it changes every bootstrap draw; that is read as outside the property's domain); the conformal estimators are also given units from a state outside the config",
     "bootstrap float columns of rows that should not change are compared with 1e-9 relative tolerance (appending a row changes matrix shapes and BLAS summation order); everything else bit-for-bit",
     "rounded gaussian bounds: +v exactness assumes no value lies within 1e-9 of a half integer",
 ]
@@ -49,9 +49,14 @@ def _strategy(draw):
     if not live_states:
         live_states = [case["units"][0]["st"]]
     s = live_states[draw(st.integers(0, len(live_states) - 1))]
+    # conformal estimators: the unit may also come from a state the election is not configured for ("any state");
+    # for the bootstrap a new state adds a contest and is outside the domain (see ASSUMPTIONS)
+    new_state = case["req"]["pi"] != "bootstrap" and draw(st.integers(0, 5)) == 0
+    if new_state:
+        s = "QQ"
     counties = sorted({u["county"] for u in case["units"] if u["st"] == s})
     known_county = draw(st.booleans())
-    county = counties[draw(st.integers(0, len(counties) - 1))] if known_county and counties else f"{gen.STATES.index(s) + 1}77"
+    county = counties[draw(st.integers(0, len(counties) - 1))] if known_county and counties else (f"{gen.STATES.index(s) + 1}77" if s in gen.STATES else "977")
     if district:
         dists = sorted({u["dist"] for u in case["units"] if u["st"] == s})
         known_dist = draw(st.booleans())
@@ -71,7 +76,7 @@ def _strategy(draw):
     else:
         rd, rg, ro = draw(st.integers(0, 900)), draw(st.integers(0, 900)), draw(st.integers(0, 60))
     case["added"] = {"id": uid, "st": s, "pev": pev, "rd": rd, "rg": rg, "ro": ro}
-    case["added_info"] = {"known_county": bool(known_county and counties), "known_dist": known_dist, "votes": votes_kind}
+    case["added_info"] = {"known_county": bool(known_county and counties), "known_dist": known_dist, "votes": votes_kind, "new_state": new_state}
     return case
 
 
@@ -234,6 +239,8 @@ def check_case(case, ctx):
     if info.get("known_dist") is not None:
         ctx.label("district:" + ("known" if info.get("known_dist") else "new"))
     ctx.label("votes:" + str(info.get("votes")))
+    if info.get("new_state"):
+        ctx.label("state:not_in_config")
     if created_group:
         ctx.label("created_group")
     vpos = any(float(x) != 0 for x in v.values()) or new_rec["res"]["weights"] > 0
